@@ -70,8 +70,15 @@ Definition sym_is_macro (s : pst) (k : string) : bool :=
 Definition get_routine (s : pst) (k : string) : option (list string) :=
   match st_get (p_globals s) k with Some (SyRoutine ps) => Some ps | _ => None end.
 Definition has_routine (s : pst) (k : string) : bool := match get_routine s k with Some _ => true | None => false end.
-Definition get_macro (s : pst) (k : string) : option value :=
+(* Context.has_macro / the value: whether the name is taken by a constant, hidden here or not *)
+Definition global_macro (s : pst) (k : string) : option value :=
   match st_get (p_globals s) k with Some (SyMacro v) => Some v | _ => None end.
+(* Context.get_macro: the constant a name denotes here *)
+Definition get_macro (s : pst) (k : string) : option value :=
+  match st_get (p_locals s) k with
+  | Some _ => None        (* a parameter or local variable hides a constant of the same name (D68) *)
+  | None => global_macro s k
+  end.
 
 Definition add_variable (s : pst) (k : string) : pst :=
   if p_in_routine s then mkP (p_toks s) (p_globals s) (st_set (p_locals s) k SyVar) true (p_in_matrix s) (p_loops s)
@@ -433,7 +440,7 @@ Fixpoint p_command (fuel : nat) (s : pst) {struct fuel} : pres stmt :=
         let s2 := next s1 in
         if routine_start s2 then
           (* a routine *)
-          if has_routine s2 name || (match get_macro s2 name with Some _ => true | None => false end) then perr s2
+          if has_routine s2 name || (match global_macro s2 name with Some _ => true | None => false end) then perr s2
           else if p_in_routine s2 then perr s2
           else
             (* the body of a routine is not part of the loops around its definition *)
@@ -444,7 +451,7 @@ Fixpoint p_command (fuel : nat) (s : pst) {struct fuel} : pres stmt :=
             POk (SDefineRoutine name params body) (set_loops (set_routine_flag s6 false) (p_loops s2))
         else
           (* a macro *)
-          match get_macro s2 name with
+          match global_macro s2 name with
           | Some _ => perr s2
           | None =>
               if has_routine s2 name then perr s2 else
